@@ -999,3 +999,27 @@ package analysis
 //@   ensures forall k string :: old(k in dom(s.references.parameters)) ==> k in dom(s.references.parameters)
 //@   ensures forall k string :: old(k in dom(s.references.allRefs)) ==> k in dom(s.references.allRefs)
 //@   ensures forall k string :: forall p spec.Ref :: itRef(k, p, param.Items, path.Join(prefix, "parameters", strconv.Itoa(i)), "items") ==> k in dom(s.references.items) && k in dom(s.references.allRefs)
+// responses and path items register their own $ref (refs aspect)
+//@ func (s *Spec) analyzeDefaultResponse(prefix, res)
+//@   aspect refs
+//@   requires s != nil && res != nil && idxMaps(s)
+//@   modifies map s.references.responses, map s.references.allRefs, map s.patterns.headers, map s.patterns.allPatterns, map s.enums.headers, map s.enums.allEnums, map s.references.items, map s.references.headerItems, map s.references.parameterItems, map s.patterns.items, map s.enums.items, map s.allSchemas, map s.allOfs, map s.references.schemas, map s.patterns.schemas, map s.enums.schemas
+//@   ensures res.Ref.String() != "" ==> ("#" + path.Join(prefix, "responses", "default")) in dom(s.references.responses) && s.references.responses["#" + path.Join(prefix, "responses", "default")] == res.Ref && ("#" + path.Join(prefix, "responses", "default")) in dom(s.references.allRefs)
+//@   ensures forall k in dom(s.references.responses) :: (old(k in dom(s.references.responses)) && s.references.responses[k] == old(s.references.responses[k])) || (k == "#" + path.Join(prefix, "responses", "default") && res.Ref.String() != "" && s.references.responses[k] == res.Ref)
+//@   ensures forall k string :: old(k in dom(s.references.allRefs)) ==> k in dom(s.references.allRefs)
+//@   ensures res.Schema != nil ==> forall k string :: forall r spec.Ref :: schRef(k, r, *res.Schema, path.Join(prefix, "responses", "default"), "schema") ==> k in dom(s.references.schemas) && k in dom(s.references.allRefs)
+//@   loop 1: invariant forall k in dom(s.references.responses) :: (old(k in dom(s.references.responses)) && s.references.responses[k] == old(s.references.responses[k])) || (k == "#" + path.Join(prefix, "responses", "default") && res.Ref.String() != "" && s.references.responses[k] == res.Ref)
+//@   loop 1: invariant forall k string :: old(k in dom(s.references.allRefs)) ==> k in dom(s.references.allRefs)
+//@   loop 1: invariant res.Ref.String() != "" ==> ("#" + path.Join(prefix, "responses", "default")) in dom(s.references.responses) && s.references.responses["#" + path.Join(prefix, "responses", "default")] == res.Ref && ("#" + path.Join(prefix, "responses", "default")) in dom(s.references.allRefs)
+
+//@ func (s *Spec) analyzeResponse(prefix, k, res)
+//@   aspect refs
+//@   requires s != nil && idxMaps(s)
+//@   modifies map s.references.responses, map s.references.allRefs, map s.patterns.headers, map s.patterns.allPatterns, map s.enums.headers, map s.enums.allEnums, map s.references.items, map s.references.headerItems, map s.references.parameterItems, map s.patterns.items, map s.enums.items, map s.allSchemas, map s.allOfs, map s.references.schemas, map s.patterns.schemas, map s.enums.schemas
+//@   ensures res.Ref.String() != "" ==> ("#" + path.Join(prefix, "responses", strconv.Itoa(k))) in dom(s.references.responses) && s.references.responses["#" + path.Join(prefix, "responses", strconv.Itoa(k))] == res.Ref && ("#" + path.Join(prefix, "responses", strconv.Itoa(k))) in dom(s.references.allRefs)
+//@   ensures forall kk in dom(s.references.responses) :: (old(kk in dom(s.references.responses)) && s.references.responses[kk] == old(s.references.responses[kk])) || (kk == "#" + path.Join(prefix, "responses", strconv.Itoa(k)) && res.Ref.String() != "" && s.references.responses[kk] == res.Ref)
+//@   ensures forall kk string :: old(kk in dom(s.references.allRefs)) ==> kk in dom(s.references.allRefs)
+//@   ensures res.Schema != nil ==> forall kk string :: forall r spec.Ref :: schRef(kk, r, *res.Schema, path.Join(prefix, "responses", strconv.Itoa(k)), "schema") ==> kk in dom(s.references.schemas) && kk in dom(s.references.allRefs)
+//@   loop 1: invariant forall kk in dom(s.references.responses) :: (old(kk in dom(s.references.responses)) && s.references.responses[kk] == old(s.references.responses[kk])) || (kk == "#" + path.Join(prefix, "responses", strconv.Itoa(k)) && res.Ref.String() != "" && s.references.responses[kk] == res.Ref)
+//@   loop 1: invariant forall kk string :: old(kk in dom(s.references.allRefs)) ==> kk in dom(s.references.allRefs)
+//@   loop 1: invariant res.Ref.String() != "" ==> ("#" + path.Join(prefix, "responses", strconv.Itoa(k))) in dom(s.references.responses) && s.references.responses["#" + path.Join(prefix, "responses", strconv.Itoa(k))] == res.Ref && ("#" + path.Join(prefix, "responses", strconv.Itoa(k))) in dom(s.references.allRefs)
